@@ -1375,6 +1375,10 @@ func (g *gen) ctorFamily(sc *scope, td *TypeDecl) Stmt {
 			s.Local = g.localName()
 		}
 	}
+	// a literal wrapped over two lines: T{ <newline> } - reported where it begins
+	if s.Kind == "lit" || s.Kind == "litptr" {
+		s.Multi = g.chance("multiLineLiteral", 15)
+	}
 	return s
 }
 
@@ -1755,7 +1759,7 @@ func (g *gen) genIndirect(pkg *Pkg, earlier []*Pkg, n int) []Decl {
 
 // oneLinerOK: sites that render as a single statement without filler lines.
 func (g *gen) oneLinerOK(s *Site) bool {
-	if s.Form != "" {
+	if s.Form != "" || s.Multi {
 		return false
 	}
 	switch s.Kind {
